@@ -730,6 +730,19 @@ func runC20(c *Ctx) {
 	checkStatusIsFailureWhereDataIsExpected(c, "Z6")
 	checkUnknownIDEndsSession(c, "Z7")
 	checkWorkerCountBounded(c, "Z8")
+	// Z9 (shared with C08.O3 / C07.R10): the length word of a reply is checked before the body is allocated — with the
+	// allocation in front of the check a 13-byte reply makes the client allocate whatever the server announces
+	c.withRule("Z9", func() { checkFrameLimits(c, newZWorld(p)) })
+	// Z10 (shared with C04.R7): bad replies to several chunks of one transfer must not close the cancel channel twice
+	mapReduceKeyFilter = "cancel closed at most once"
+	for _, name := range []string{"(*File).readAt", "(*File).WriteTo", "(*File).writeAtConcurrent", "(*File).readFromWithConcurrency"} {
+		if fn := p.Func(name); fn != nil {
+			checkMapReduce(c, fn, name, "Z10", false)
+		} else {
+			c.missing("Z10", name)
+		}
+	}
+	mapReduceKeyFilter = ""
 }
 
 // clientAxioms adds: data returned by clientConn.sendPacket with a nil error, and result.data of a
